@@ -943,11 +943,11 @@ class Folder:
                 for kk in flow.MODEL.mro(cf.cls)[1:]:
                     t = kk.methods.get(f.attr)
                     if t is not None:
-                        args = [self.ev(a, env) for a in n.args]
+                        args = self._call_args(n, env)
                         return self.call(t.node, [env[cf.params[0]]] + args, self._kwargs(n, env))
             raise Refuse("super()")
         recv = self.ev(f.value, env)
-        args = [self.ev(a, env) for a in n.args]
+        args = self._call_args(n, env)
         if isinstance(recv, str) and f.attr in self._STR_METHODS and all(isinstance(a, (str, int)) for a in args):
             try:
                 return getattr(recv, f.attr)(*args)
@@ -1053,6 +1053,21 @@ class Folder:
                     kw["**"] = d
         return kw
 
+    def _call_args(self, n, env):
+        """Positional arguments of a call; a starred argument is spread when it folded to a sequence -- never dropped."""
+        args = []
+        for a in n.args:
+            if isinstance(a, ast.Starred):
+                v = self.ev(a.value, env)
+                if isinstance(v, Arr):
+                    v = v.data
+                if not isinstance(v, (list, tuple)):
+                    raise HardRefuse("starred argument that did not fold to a sequence")
+                args.extend(v)
+            else:
+                args.append(self.ev(a, env))
+        return args
+
     def e_Call(self, n, env):
         f = n.func
         ov = getattr(self, "overrides", None)
@@ -1062,7 +1077,7 @@ class Folder:
             except Exception:
                 key = None
             if key in ov:
-                args = [self.ev(a, env) for a in n.args if not isinstance(a, ast.Starred)]
+                args = self._call_args(n, env)
                 kw = self._kwargs(n, env)
                 return ov[key](args, kw)
         if not self.symbolic:
@@ -1163,7 +1178,7 @@ class Folder:
                 try:
                     args = [self.ev(a, env) for a in n.args]
                     kw = self._kwargs(n, env)
-                    if all(not isinstance(x, Sym) for x in list(args) + list(kw.values())):
+                    if self.fold_all_methods or all(not isinstance(x, Sym) for x in list(args) + list(kw.values())):
                         sub = Folder(symbolic=True, max_steps=20000)
                         sub.overrides = getattr(self, "overrides", None)
                         sub.fold_all_methods = self.fold_all_methods
@@ -1227,7 +1242,7 @@ class Folder:
                 except Refuse:
                     pass
         if self.symbolic:
-            args = [self.ev(a, env) for a in n.args if not isinstance(a, ast.Starred)]
+            args = self._call_args(n, env)
             kw = self._kwargs(n, env)
             if isinstance(f, ast.Attribute):
                 try:
